@@ -65,6 +65,7 @@ LinkConstraintRecord = recordclass('LinkConstraintRecord',
 class NetworkLinkSliver(BaseSliver):
 
     NAME_REGEX = r'^[\w\-+_/\.\ :]{2,255}$'
+    TYPE_CLASS = LinkType
 
     """
     Services can be limited by the number of interfaces/connection points they can connect
